@@ -109,10 +109,11 @@ PROPS["C19"] = dict(
 
 PROPS["C15"] = dict(
     pkg="./props/dict", level="exploration", design_ref="DESIGN.md §3 C15",
-    technique="conformance by construction from an independent XML walk of the dictionaries (rapid + enumeration of every message type), then single-defect mutation testing against a reject-reason table, under all 32 validator settings",
+    technique="conformance by construction from an independent XML walk of the dictionaries (rapid + enumeration of every message type), then single-defect mutation testing against a reject-reason table, under all 32 validator settings; the switches as written in a settings file are checked through a session against the validator built from the same values",
     stages=[dict(name="rapid", kind="rapid", run="^TestC15_Rapid$", checks=(2500, 40000), shards=(12, 16), timeout=(400, 2400)),
-            dict(name="enumerate", kind="plain", run="^TestC15_Enumerate$", shards=(12, 16), timeout=(600, 3000))],
-    require=["conforming:FIX40", "conforming:FIX44", "conforming:FIX50SP2", "conforming:FIXT11", "conforming:with-group", "mutation:missing-required-top", "mutation:duplicate-tolerated-unknown", "mutation:duplicate-tolerated-user",
+            dict(name="enumerate", kind="plain", run="^TestC15_Enumerate$", shards=(12, 16), timeout=(600, 3000)),
+            dict(name="settings-route", kind="rapid", run="^TestC15_SettingsRoute$", pkg="./props/session", checks=(300, 2500), shards=(12, 16), timeout=(400, 2400))],
+    require=["settings-route:accepted", "settings-route:rejected", "conforming:FIX40", "conforming:FIX44", "conforming:FIX50SP2", "conforming:FIXT11", "conforming:with-group", "mutation:missing-required-top", "mutation:duplicate-tolerated-unknown", "mutation:duplicate-tolerated-user",
              "mutation:undefined-known", "mutation:enum", "mutation:count+1", "mutation:swap-members", "mutation:duplicate", "mutation:header-in-body"],
     assumptions=["conforming messages list members in declaration order; a scalar whose tag is also defined inside a group of the same level is not generated",
                  "multi-valued fields are generated single-valued",
